@@ -329,9 +329,29 @@ def gen_zero_rtt(r, idx, prefix=None):
     return {"run": idx, "seed": r.getrandbits(48), "cfg": cfg, "tasks": tasks, "family": "zero_rtt"}
 
 
+def gen_close_race(r, idx, prefix=None):
+    """Endpoint::close() while a server task is holding an Incoming it has not decided about yet: whatever it
+    does with it afterwards, nothing may survive the close - the handshake future resolves, wait_idle returns."""
+    cfg = base_cfg(r, prefix)
+    tasks = [{"ep": 0, "root": True, "ops": []}, {"ep": 1, "root": True, "ops": []}]
+    srv, cli = tasks[0], tasks[1]
+    closer = [{"op": "sleep", "us": r.choice([1, 50, 300, 1000, 5000])}] if r.random() < 0.7 else []
+    closer += [{"op": "yield"} for _ in range(r.choice([0, 1, 3]))]
+    closer += [{"op": "ep_close", "code": r.choice([0, 9])}, {"op": "wait_idle"}]
+    tasks.append({"ep": 0, "ops": closer, "with_ep": True})
+    srv["ops"].append({"op": "spawn", "t": len(tasks) - 1})
+    srv["ops"].append({"op": "accept_conn", "hold": r.choice([1, 2, 5, 20, 100]), "inc": r.choice(["accept", "accept", "accept", "refuse", "drop"])})
+    srv["ops"] += r.choice([[{"op": "closed"}], [{"op": "open_uni"}], [{"op": "wait_idle"}]])
+    cli["ops"].append({"op": "connect"})
+    cli["ops"] += r.choice([[{"op": "closed"}], [{"op": "open_uni"}, {"op": "closed"}]])
+    return {"run": idx, "seed": r.getrandbits(48), "cfg": cfg, "tasks": tasks, "family": "close_race"}
+
+
 def gen_script(r, idx, prefix=None):
     fam = r.random()
-    if fam < 0.06:
+    if fam < 0.05:
+        return gen_close_race(r, idx, prefix)
+    if fam < 0.11:
         return gen_zero_rtt(r, idx, prefix)
     if fam < 0.20:
         return gen_limit_chain(r, idx, prefix)
